@@ -180,8 +180,22 @@ func (st *PrefixStorage) BatchFunc(
 	func(func(func() error) error) error,
 	func(),
 ) {
+	st.RLock()
+	prefix := st.prefix
+	st.RUnlock()
+
+	if prefix == nil {
+		return func(func(LeveldbBatch), func(func() error) error) error {
+				return storage.ErrClosed.WithStack()
+			},
+			func(func(func() error) error) error {
+				return storage.ErrClosed.WithStack()
+			},
+			func() {}
+	}
+
 	return st.Storage.BatchFuncWithNewBatch(ctx, batchsize, wo, func() LeveldbBatch {
-		return st.NewBatch()
+		return newPrefixStorageBatch(prefix)
 	})
 }
 
